@@ -19,9 +19,9 @@ fn f32s(v: &[f32]) -> Vec<u8> { v.iter().flat_map(|x| x.to_le_bytes()).collect()
 fn count(rng: &mut Rng) -> usize { match rng.below(4) { 0 => 0, 1 => 1, _ => rng.range(2, 5) as usize } }
 
 /// one animated track as the generator sees it: which blobs (by original offset) it refers to
-struct Tr { bone: usize, ty: TrackType, ts: (u32, Vec<u8>), vals: (u32, Vec<u8>), ranges: Option<(u32, Vec<u8>)> }
+pub struct Tr { pub bone: usize, pub ty: TrackType, pub ts: (u32, Vec<u8>), pub vals: (u32, Vec<u8>), pub ranges: Option<(u32, Vec<u8>)> }
 
-fn gen_model(rng: &mut Rng, version: M2Version) -> (M2Model, Vec<Tr>) {
+pub fn gen_model(rng: &mut Rng, version: M2Version) -> (M2Model, Vec<Tr>) {
     let pre = version.to_header_version() < 264;
     let mut m = M2Model::default();
     m.header = M2Header::new(version);
@@ -119,6 +119,18 @@ fn skin_canon(s: &wow_m2::skin::SkinFile) -> String {
     format!("i{:?}|t{:?}|b{:?}|s{:?}|m{:?}", s.indices(), s.triangles(), s.bone_indices(),
         s.submeshes().iter().map(|x| (x.id, x.level, x.vertex_start, x.vertex_count, x.triangle_start, x.triangle_count, x.bone_count, x.bone_start, x.bone_influence, x.center.map(|v| v.to_bits()), x.sort_center.map(|v| v.to_bits()), x.bounding_radius.to_bits())).collect::<Vec<_>>(),
         s.batches().iter().map(|b| format!("{:?}", b)).collect::<Vec<_>>())
+}
+
+/// a small valid skin file in either layout (C05 corpus)
+pub fn skin_bytes(rng: &mut Rng, old: bool) -> Option<Vec<u8>> {
+    use wow_m2::skin::{OldSkin, OldSkinHeader, Skin, SkinBatch, SkinFile, SkinHeader, SkinSubmesh};
+    let indices: Vec<u16> = (0..9).map(|_| rng.below(40) as u16).collect();
+    let triangles: Vec<u16> = (0..9).map(|_| rng.below(9) as u16).collect();
+    let bone_indices: Vec<u8> = (0..36).map(|_| rng.below(8) as u8).collect();
+    let submeshes = vec![SkinSubmesh { id: 0, level: 0, vertex_start: 0, vertex_count: 9, triangle_start: 0, triangle_count: 9, bone_count: 1, bone_start: 0, bone_influence: 1, center: [0.0; 3], sort_center: [0.0; 3], bounding_radius: 1.0 }];
+    let batches = vec![SkinBatch { flags: 0, priority_plane: 0, shader_id: 0, skin_section_index: 0, geoset_index: 0, color_index: 0xFFFF, material_index: 0, material_layer: 0, texture_count: 1, texture_combo_index: 0, texture_coord_combo_index: 0, texture_weight_combo_index: 0, texture_transform_combo_index: 0xFFFF }];
+    let f = if old { SkinFile::Old(OldSkin { header: OldSkinHeader::new(), indices, triangles, bone_indices, submeshes, batches }) } else { SkinFile::New(Skin { header: SkinHeader::new(wow_m2::M2Version::WotLK), indices, triangles, bone_indices, submeshes, batches }) };
+    let mut c = Cursor::new(Vec::new()); f.write(&mut c).ok()?; Some(c.into_inner())
 }
 
 fn run_skins(ctx: &mut Ctx) {
